@@ -373,7 +373,9 @@ def omhist_case(ctx, drv, hist):
                               observed={"patterns": None if impl is None else len(impl), "pattern": bad, "origin_measured": None if not impl or bad >= len(impl) else impl[bad]},
                               required={"patterns": n, "(row,col)": want[bad]})
                 return
-            sh.update(measured=exact, m_src="com", plane=None)
+            # growth 6: measured centres of mass that lie EXACTLY on a plane over the scan grid (exact fractions) are judged by
+            # the plane clause as well (patterns built with integer centres of mass; never the case for random patterns)
+            sh.update(measured=exact, m_src="com", plane=_exact_plane(exact, cur.shape[0], cur.shape[1]))
         if k in ("fit", "forward"):
             meth = "constant" if k == "forward" else op["method"]
             meas = sh["measured"]
@@ -487,6 +489,20 @@ def _om_model_tie(ctx, drv, hist, impl_states, labels, plane_of, case, upto):
                 if d > TOL32:
                     ctx.disagree("omhist-state", dict(case, at=i), mod.reshape(-1)[:8].tolist(), b_.reshape(-1)[:8].tolist(), note=f"after {k}: origin_{name}, omStep at Rat vs implementation")
                     return
+
+
+def _exact_plane(exact, sr, sc):
+    """[[a, b, c], [a', b', c']] if the exact (row, col) origins equal a*x + b*y + c on the sr x sc scan grid, else None"""
+    if min(sr, sc) < 2 or len(exact) != sr * sc:
+        return None
+    out = []
+    for comp in (0, 1):
+        z = [e[comp] for e in exact]
+        c, a, b = z[0], z[sc] - z[0], z[1] - z[0]
+        if any(z[x * sc + y] != a * x + b * y + c for x in range(sr) for y in range(sc)):
+            return None
+        out.append([a, b, c])
+    return out
 
 
 def _dyadic_set_before(hist, i):
